@@ -173,7 +173,7 @@ def handle : List String → String
   | "closelag" :: _ => "ok lag=0"   -- closed channel ⇒ complete status (Props: close_status_complete; the order before /repo 7025f4b allowed lag=1)
   | "closeord" :: present :: missing :: _ :: _ :: rest =>   -- the same claim at the spawner's `c.close` point under a forced schedule; every reader was held once
     let dirs := match rest with | d :: _ => d.toNat! | [] => 0   -- directories: opened, first read fails (body `[opened, err]`)
-    s!"ok lag=0 after=0 status=1 status_after=1 errors={missing.toNat! + dirs} bytes=1 held={present.toNat! + missing.toNat! + dirs}"
+    s!"ok lag=0 after=0 status=1 status_after=1 errors={missing.toNat! + dirs} bytes=1 ahead=0 held={present.toNat! + missing.toNat! + dirs}"
   | "sigagg" :: _ => "ok returned=1 input_exhausted=0 final_render=1 final_eq_sampled=1 whole_batches=1 late_renders=0 late_samples=0 excl_ok=1"
   | _ => "bad-op"
 
